@@ -394,6 +394,9 @@ def _snippet_skip(label, used):
     return False
 
 
+# Requests exactly on a bound given as a Time are the known finding KF-C12-1; they are probed deterministically
+# by props/c12.py (where any *other* failure of a bound request is still a violation), so the seeded draws of
+# this layer leave them out instead of hitting the finding on some seeds and not on others.
 _sn.skip_fn = _snippet_skip
 CONTRACTS.append(_sn)
 
